@@ -13,7 +13,6 @@ def unit():
     C.invariant("len(self._buffer) > 0", "capacity-positive")
     C.invariant("self._size == min(len(self.H), len(self._buffer))", "size-is-min(k,c)")
     C.invariant("0 <= self._offset and self._offset < len(self._buffer)", "offset-in-range")
-    C.invariant("implies(self._size < len(self._buffer), self._offset == self._size)", "offset-before-wrap")
     C.invariant("forall(t, len(self.H) - self._size, len(self.H), self._buffer[slot(self, t)] == self.H[t], trigger=self.H[t])",
                 "ring-holds-history-tail")
 
